@@ -21,9 +21,6 @@ Wd(c, b, a, x) == [c |-> c, b |-> b, a |-> a, x |-> x]
 NoFlags(w) == w.c = 0 /\ w.b = 0 /\ w.a = 0
 
 Q(C) == C.F.p
-FieldSize(F) == F.p ^ F.d
-\* Euler's criterion (odd characteristic): a is a square iff a = 0 or a^((|F|-1)/2) = 1
-IsSquare(F, a) == a = Zero(F) \/ Pow(F, a, (FieldSize(F) - 1) \div 2) = One(F)
 
 \* sign of y, G1 (d = 1) and G2 (d = 2, coefficient 1 = real part, 2 = imaginary part)
 Sign1(C, y) == (2 * y[1]) \div Q(C)
